@@ -37,6 +37,7 @@ EVENT_TEXT = {
     "wrong-side": "a factor is emitted on the wrong side of the '/': a positive-exponent factor after it or a negative one before it",
     "second-slash": "a second '/' can be emitted",
     "dangling-sep": "the result can end with a separator",
+    "misplaced-sep": "a separator can be emitted where no factor precedes it: the text starts with it ('.m/s') or doubles it",
     "suffix-without-factor": "an exponent suffix is appended where no factor precedes it",
     "leading-slash": "the '/' can be emitted with nothing before it: a pure reciprocal renders as '/s' instead of '1/s'",
     "one-after-factor": "the reciprocal prefix '1/' can be emitted after a factor: 'm1/s'",
